@@ -14,6 +14,12 @@ pub assume_specification [<std::io::Error as From<std::io::ErrorKind>>::from] (k
     ensures io_kind(e) == k;
 pub assume_specification [<std::io::ErrorKind as PartialEq>::eq] (a: &std::io::ErrorKind, b: &std::io::ErrorKind) -> (r: bool)
     ensures r == (*a == *b);
+/// ASSUMED (std): `ErrorKind::into()` (blanket Into over From<ErrorKind> for io::Error) yields an error of that kind.
+#[verifier::external_body]
+pub proof fn std_io_error_from_kind()
+    ensures <std::io::Error as vstd::std_specs::convert::FromSpec<std::io::ErrorKind>>::obeys_from_spec(),
+        forall|k: std::io::ErrorKind| io_kind(#[trigger] <std::io::Error as vstd::std_specs::convert::FromSpec<std::io::ErrorKind>>::from_spec(k)) == k
+{}
 pub open spec fn is_eof_kind(e: std::io::Error) -> bool { io_kind(e) == std::io::ErrorKind::UnexpectedEof }
 
 /// ASSUMED (std::io::Read): a reader is a ghost byte stream `rem()`; `read_exact(buf)` either fills `buf`
@@ -65,3 +71,20 @@ impl<'a> ReadSpecImpl for Cursor<&'a [u8]> {
     open spec fn rem(&self) -> Seq<u8> { cursor_rem(self.inner@, self.pos) }
     open spec fn consumed(&self) -> nat { self.pos as nat }
 }
+
+/// ASSUMED (std::io): `Read::take(&mut *r, limit).read_to_end(buf)` over the in-memory stream model appends the
+/// next min(limit, remaining) bytes to `buf`, consumes exactly those, and never fails; `buf` grows only by bytes
+/// actually read (Vec's amortised doubling: at most a constant factor of the bytes received, never the declared limit).
+/// Call sites spelled `(&mut *reader).take(n).read_to_end(&mut v)` are renamed to this stand-in mechanically.
+#[verifier::external_body]
+pub fn vx_take_read_to_end<R: std::io::Read + ?Sized>(r: &mut R, limit: u64, buf: &mut Vec<u8>) -> (res: Result<usize, std::io::Error>)
+    ensures
+        res is Ok,
+        ({
+            let n = if (*old(r)).rem().len() < limit { (*old(r)).rem().len() } else { limit as nat };
+            &&& res->Ok_0 == n
+            &&& final(buf)@ =~= old(buf)@ + (*old(r)).rem().take(n as int)
+            &&& (*final(r)).rem() =~= (*old(r)).rem().skip(n as int)
+            &&& (*final(r)).consumed() == (*old(r)).consumed() + n
+        }),
+{ std::io::Read::read_to_end(&mut std::io::Read::take(r, limit), buf) }
